@@ -58,6 +58,26 @@ func (t *Collection) markReclaimable(n *node, reclaimMark *node) {
 	n.next = reclaimMark
 }
 
+// Undoes the markReclaimable() calls of a mutation that failed part
+// way through, so that nodes of the still-current version that carry
+// its reclaimMark are not recycled when that version is released.
+func (t *Collection) clearReclaimMarks(nloc *nodeLoc, reclaimMark *node) {
+	if nloc.isEmpty() {
+		return
+	}
+	n := nloc.Node()
+	if n == nil {
+		return
+	}
+	t.rootLock.Lock()
+	if n.next == reclaimMark {
+		n.next = nil
+	}
+	t.rootLock.Unlock()
+	t.clearReclaimMarks(&n.left, reclaimMark)
+	t.clearReclaimMarks(&n.right, reclaimMark)
+}
+
 func (t *Collection) reclaimMarkUpdate(nloc *nodeLoc,
 	oldReclaimMark, newReclaimMark *node) *node {
 	if nloc.isEmpty() {
